@@ -112,6 +112,9 @@ QUICK = [
     VCfg("v", 0, "int", "realloc", "uint16_t", "s3"),
     # C++20: operator<=>, erase / erase_if
     VCfg("s", 3, "NTR", "basic", "uint32_t", "v", std="c++20"),
+    # C++14: the containers run on the pre-C++17 emulations of the memory algorithms (amc/memory.hpp) under the full set of monitors
+    VCfg("s", 3, "TC4", "amc", "uint32_t", "v", std="c++14"),
+    VCfg("v", 0, "NTR", "basic", "uint16_t", "s3", std="c++14"),
     # over-aligned element (16 bytes / alignas 16) next to an 8-bit size_type: placement of the inline slots (UBSan alignment check)
     VCfg("s", 3, "TC16A", "basic", "uint8_t", "f3"),
 ]
@@ -147,6 +150,10 @@ THOROUGH_EXTRA = [
     VCfg("s", 3, "TR", "realloc", "uint32_t", "v", std="c++20"),
     VCfg("v", 0, "NTR", "exact", "uint32_t", "s3", std="c++20"),
     VCfg("f", 4, "NTR", "none", "uint8_t", "v", std="c++20"),
+    VCfg("f", 4, "TR", "none", "uint8_t", "s3", std="c++14"),
+    VCfg("s", 2, "TC12", "realloc", "uint8_t", "f3", std="c++14"),
+    VCfg("v", 0, "int", "amc", "uint32_t", "s3", std="c++14"),
+    VCfg("s", 4, "double", "std", "uint32_t", "v", std="c++14"),
     VCfg("s", 4, "NTR", "basic", "uint32_t", "v", compiler="clang++-14"),
     VCfg("s", 2, "TR", "realloc", "uint8_t", "f3", compiler="clang++-14"),
     VCfg("v", 0, "TC4", "basic", "uint32_t", "s3", compiler="clang++-14"),
@@ -173,6 +180,8 @@ FUZZ_CFGS = [
     VCfg("s", 3, "NTR", "basic", "uint32_t", "v", std="c++20", compiler="clang++-14"),
     VCfg("v", 0, "TC4", "amc", "uint8_t", "v", compiler="clang++-14"),
     VCfg("s", 8, "TR", "amc", "uint32_t", "s4", compiler="clang++-14"),
+    VCfg("s", 3, "TC4", "amc", "uint32_t", "v", std="c++14", compiler="clang++-14"),
+    VCfg("v", 0, "NTR", "basic", "uint16_t", "s3", std="c++14", compiler="clang++-14"),
 ]
 FUZZ_QUICK = [FUZZ_CFGS[0], FUZZ_CFGS[1], FUZZ_CFGS[2], FUZZ_CFGS[6]]
 
@@ -324,6 +333,7 @@ GROWTH_THOROUGH = [
     GrowthCfg("s", 16, "TC8", "basic", "uint32_t"),
     GrowthCfg("s", 4, "NTR", "basic", "uint32_t", compiler="clang++-14"),
     GrowthCfg("v", 0, "TR", "realloc", "uint32_t", std="c++20"),
+    GrowthCfg("s", 4, "NTR", "exact", "uint32_t", std="c++14"),
 ]
 
 
@@ -361,6 +371,7 @@ ALIAS_QUICK = [
     alias_cfg("f", 8, "TR", "none", "uint8_t"),
     alias_cfg("s", 3, "NTR", "basic", "uint8_t"),
     alias_cfg("v", 0, "TR", "realloc", "uint16_t"),
+    alias_cfg("s", 3, "NTR", "exact", "uint32_t", std="c++14"),
 ]
 ALIAS_THOROUGH = [
     alias_cfg("v", 0, "NTR", "std", "int16_t"),
@@ -373,6 +384,8 @@ ALIAS_THOROUGH = [
     alias_cfg("s", 4, "NTR", "basic", "uint32_t", compiler="clang++-14"),
     alias_cfg("v", 0, "TR", "realloc", "uint32_t", std="c++20"),
     alias_cfg("s", 4, "NTR", "exact", "uint32_t", std="c++20"),
+    alias_cfg("v", 0, "TC4", "amc", "uint8_t", std="c++14"),
+    alias_cfg("f", 8, "TR", "none", "uint8_t", std="c++14"),
 ]
 
 
@@ -395,6 +408,7 @@ LIMITS_QUICK = [
     lim_cfg("v", 0, "TR", "basic", "uint32_t"),
     lim_cfg("s", 4, "NTR", "exact", "uint32_t"),
     lim_cfg("s", 3, "TC4", "amc", "int32_t"),
+    lim_cfg("s", 2, "TR", "basic", "uint8_t", std="c++14"),
 ]
 LIMITS_THOROUGH = [
     lim_cfg("f", 4, "TR", "none", "uint8_t"),
@@ -407,6 +421,8 @@ LIMITS_THOROUGH = [
     lim_cfg("s", 2, "NTR", "basic", "uint8_t", compiler="clang++-14"),
     lim_cfg("f", 3, "NTR", "none", "uint8_t", std="c++20"),
     lim_cfg("v", 0, "NTR", "exact", "uint8_t", std="c++20"),
+    lim_cfg("f", 3, "NTR", "none", "uint8_t", std="c++14"),
+    lim_cfg("v", 0, "TC4", "amc", "uint8_t", std="c++14"),
 ]
 
 
@@ -426,6 +442,9 @@ FAULT_QUICK = [
     fault_cfg("v", 0, "TR", "amc", "uint64_t"),
     fault_cfg("s", 4, "TC8", "amc", "uint64_t"),
     fault_cfg("s", 3, "NTR", "amc", "uint64_t"),
+    # C++14: clean-up on throw of the pre-C++17 emulations of the memory algorithms as the containers use them
+    fault_cfg("s", 4, "NTR", "basic", "uint32_t", std="c++14"),
+    fault_cfg("v", 0, "TR", "realloc", "uint32_t", std="c++14"),
 ]
 FAULT_THOROUGH = [
     fault_cfg("v", 0, "NTR", "exact", "int16_t"),
@@ -437,6 +456,8 @@ FAULT_THOROUGH = [
     fault_cfg("s", 4, "NTR", "basic", "uint32_t", compiler="clang++-14"),
     fault_cfg("v", 0, "NTR", "basic", "uint32_t", std="c++20"),
     fault_cfg("s", 4, "TR", "basic", "uint32_t", std="c++20"),
+    fault_cfg("f", 8, "NTR", "none", "uint8_t", std="c++14"),
+    fault_cfg("s", 3, "NTR", "exact", "uint32_t", std="c++14"),
 ]
 
 
@@ -478,4 +499,5 @@ SWAP2_THOROUGH = [
     PairCfg("TC4", S4, "s8:realloc:int16_t"), PairCfg("TR", "s1:realloc:uint16_t", "v:realloc:uint64_t"), PairCfg("NTR", "s8:amc:uint32_t", "v:amc:uint32_t"),
     PairCfg("NTR", V32, V32), PairCfg("TR", "s3:exact:int8_t", "s5:exact:uint32_t"), PairCfg("TC12", "s2:std:uint32_t", "f8"),
     PairCfg("NTR", V32, S4, compiler="clang++-14"), PairCfg("TR", S4, S4U8, std="c++20"), PairCfg("NTR", S2, F3, std="c++20"),
+    PairCfg("NTR", S2, S4, std="c++14"), PairCfg("TC4", V8, F8, std="c++14"),
 ]
